@@ -173,10 +173,19 @@ def make_hubbard(rng, adj, u, nelec, trial_kind="uhf_cpmc", prop_kind="cpmc", dt
     ham_data = ham.build_measurement_intermediates(ham_data, trial, wave_data)
     ham_data = ham.build_propagation_intermediates(ham_data, prop, trial, wave_data)
     if init_walkers is None:
-        # walkers differ from the trial: the free (pin = 0) orbitals
+        # walkers differ from the trial: the free (pin = 0) orbitals.  In a degenerate shell these can be (nearly) orthogonal to the
+        # pinned trial; a start with vanishing trial overlap is outside every property's quantifier (and refused by the driver), so
+        # the start is leant towards the trial's orbitals until the overlap is bounded away from zero
         w0, v0 = np.linalg.eigh(h1 + 1e-3 * np.diag(np.arange(norb)))
-        init_walkers = [jnp.array([v0[:, :nelec[0]] + 0.0j] * n_walkers), jnp.array([v0[:, :nelec[1]] + 0.0j] * n_walkers)]
-    prop_data = prop.init_prop_data(trial, wave_data, ham_data, init_walkers)
+        for mix in (0.0, 0.5, 1.0, 2.0, 8.0):
+            wa0 = v0[:, :nelec[0]] if mix == 0.0 else np.linalg.qr(v0[:, :nelec[0]] + mix * ca)[0]
+            wb0 = v0[:, :nelec[1]] if (mix == 0.0 or not nelec[1]) else np.linalg.qr(v0[:, :nelec[1]] + mix * cb)[0]
+            init_walkers = [jnp.array([wa0 + 0.0j] * n_walkers), jnp.array([wb0 + 0.0j] * n_walkers)]
+            prop_data = prop.init_prop_data(trial, wave_data, ham_data, init_walkers)
+            if float(np.min(np.abs(np.array(prop_data["overlaps"])))) > 0.05:
+                break
+    else:
+        prop_data = prop.init_prop_data(trial, wave_data, ham_data, init_walkers)
     prop_data["key"] = jr.PRNGKey(seed)
     return dict(ham=ham, ham_data=ham_data, trial=trial, wave_data=wave_data, prop=prop, prop_data=prop_data, adj=adj, u=u)
 
